@@ -32,6 +32,7 @@ let apply_probe (p : string) (s : n list) : n list =
   match p.[0] with
   | 't' -> take (int_of_string arg) s
   | 'x' -> s @ List.init (int_of_string arg) (fun i -> n_of_int ((i * 37 + 11) land 255))
+  | 'j' -> List.map (fun c -> n_of_int (Char.code c)) (List.init (String.length arg + 11) (String.get ("{\"forged\":" ^ arg ^ "}")))
   | 'f' ->
     let i = String.index arg '.' in
     let pos = int_of_string (String.sub arg 0 i) in
@@ -123,7 +124,7 @@ let case_kf t =
   let wrong = ntimes nw (fun () -> op (n_of_int (ni t))) in
   Printf.sprintf "ok right=%s wrong=%s" right (String.concat "," wrong)
 
-(* keys INIT op* ; INIT = im | ip:<p> ; ops a:<p> d:<n> dc:<p> o:<p> m:<0|1> *)
+(* keys INIT op* ; INIT = im | ip:<p> ; ops a:<p> d:<n> dc:<p> o:<p> m:<0|1> f:<p> (plant a foreign key file) *)
 let case_keys t =
   let master = n_of_int 7 in
   let cfg = [m_brace; n_of_int 1] in
@@ -150,6 +151,13 @@ let case_keys t =
     let k = String.sub op 0 i and arg = String.sub op (i + 1) (String.length op - i - 1) in
     (match k with
      | "a" -> add (n_of_int (int_of_string arg)); emit "a=ok"
+     | "f" ->
+       (* a key file made elsewhere: foreign master key 9, password known to its maker *)
+       let p = n_of_int (int_of_string arg) in
+       let salt = [n_of_int 77] and n = nonce 150 in
+       log := ((toy_kdf p salt, n), toy_mk_ser (n_of_int 9)) :: !log;
+       st := { !st with ks_files = (n_of_int 5000, kf_generate toy_enc toy_kdf toy_mk_ser (n_of_int 9) p salt n) :: !st.ks_files };
+       emit "f=ok"
      | "d" ->
        let id = n_of_int (int_of_string arg) in
        if cur = Some id then emit "d=current"
